@@ -26,6 +26,7 @@ from .common import Inconclusive, say
 NSHARDS = int(os.environ.get('VERIF_SHARDS', '16'))
 CASE_WATCHDOG_S = 60
 MAX_SAMPLES = 6
+SHRINK_BUDGET_S = 12
 
 
 def load_check(pid):
@@ -171,7 +172,8 @@ def run_shard(check, tier, seed, shard, nshards, budget_s, with_coverage):
             if out.nontrivial:
                 h = common.case_hash(case)
                 if h not in res['distinct'] and len(res['samples']) < MAX_SAMPLES \
-                        and (len(res['samples']) < 2 or rng.random() < 0.02):
+                        and (len(res['samples']) < 2 or rng.random() < 0.02) \
+                        and len(json.dumps(common.jsonable(case), default=repr)) < 6000:        # keep the evidence file readable
                     res['samples'].append(common.jsonable(case))
                 res['distinct'].add(h)
             unlisted = []
@@ -208,11 +210,12 @@ def shrink(check, case, failures, known, max_evals=300):
     kind = failures[0]['kind']
     evals = 0
     progress = True
-    while progress and evals < max_evals:
+    t_end = time.monotonic() + SHRINK_BUDGET_S       # large (scale) cases are expensive to re-run: shrinking is best effort
+    while progress and evals < max_evals and time.monotonic() < t_end:
         progress = False
         for cand in check.shrink(case):
             evals += 1
-            if evals > max_evals:
+            if evals > max_evals or time.monotonic() > t_end:
                 break
             try:
                 out = check.evaluate(cand)
